@@ -5,7 +5,7 @@ Import String.StringSyntax.
 From DT Require Import PyStr PyVal PyAst Locate C15Spec LocateFacts RewriteFacts C15Facts.
 Import ListNotations.
 
-(* the full lookup statement is false of the faithful model: a function defined before a class breaks C.method *)
+(* the full lookup statement is false of the faithful model: a path through a nested class (C.D.z) is not found *)
 Theorem C15_refuted : ~ C15_statement.
 Proof. exact C15_refuted_lemma. Qed.
 Print Assumptions C15_refuted.
@@ -41,23 +41,32 @@ Proof. exact C15_rewrite_partial_lemma. Qed.
 Print Assumptions C15_rewrite_partial.
 
 (* further refutation witnesses, one per defect *)
-Theorem C15_wrong_node :
-  find_view [L "C"; L "method"; L "a"] [w_helper; w_C] = Ok (Some ([0; 0; 0], PArg (mkArg (L "a") None)))
-  /\ option_map fst (resolve [L "C"; L "method"; L "a"] [w_helper; w_C]) = Some [1; 1; 0; 1].
-Proof. exact C15_refuted_wrong_node. Qed.
-Print Assumptions C15_wrong_node.
-
-Theorem C15_keyword_only_never_found :
-  find_view [L "C"; L "method"; L "k"] [w_C] = Ok None
-  /\ option_map fst (resolve [L "C"; L "method"; L "k"] [w_C]) = Some [0; 1; 1; 0].
-Proof. exact C15_refuted_kwonly. Qed.
-Print Assumptions C15_keyword_only_never_found.
-
 Theorem C15_depth3_not_found :
   find_view [L "C"; L "D"; L "z"] [w_C] = Ok None
   /\ option_map fst (resolve [L "C"; L "D"; L "z"] [w_C]) = Some [0; 2; 0].
 Proof. exact C15_refuted_depth3. Qed.
 Print Assumptions C15_depth3_not_found.
+
+Theorem C15_annotated_assignment_prefix :
+  find_view [L "attr"; L "y"] [SAnnAssign (EName (L "attr")) (EName (L "int")) None]
+  = Ok (Some ([0], PStmt (SAnnAssign (EName (L "attr")) (EName (L "int")) None)))
+  /\ resolve [L "attr"; L "y"] [SAnnAssign (EName (L "attr")) (EName (L "int")) None] = None.
+Proof. exact C15_refuted_annassign_prefix. Qed.
+Print Assumptions C15_annotated_assignment_prefix.
+
+(* regression lemmas for the defects fixed in /repo 6d00342 *)
+Theorem C15_function_before_class_resolves :
+  find_view [L "C"; L "method"] [w_helper; w_C] = Ok (resolve [L "C"; L "method"] [w_helper; w_C])
+  /\ find_view [L "C"; L "method"; L "a"] [w_helper; w_C] = Ok (resolve [L "C"; L "method"; L "a"] [w_helper; w_C])
+  /\ option_map fst (resolve [L "C"; L "method"; L "a"] [w_helper; w_C]) = Some [1; 1; 0; 1].
+Proof. exact C15_regression_function_before_class. Qed.
+Print Assumptions C15_function_before_class_resolves.
+
+Theorem C15_keyword_only_found :
+  find_view [L "C"; L "method"; L "k"] [w_C] = Ok (resolve [L "C"; L "method"; L "k"] [w_C])
+  /\ option_map fst (resolve [L "C"; L "method"; L "k"] [w_C]) = Some [0; 1; 1; 0].
+Proof. exact C15_regression_kwonly. Qed.
+Print Assumptions C15_keyword_only_found.
 
 Theorem C15_same_name_collision :
   first_hit_list [L "D"; L "z"] (annotate [w_C; w_D2]) = Some [0; 2; 0]
@@ -66,22 +75,30 @@ Proof. exact C15_rewrite_refuted_collision. Qed.
 Print Assumptions C15_same_name_collision.
 
 (* class-free corollaries *)
-Theorem C15_no_toplevel_functions : forall m x,
-    supported m = true -> forallb assign_ok m = true -> existsb is_func m = false -> C15_find_at m [x].
-Proof. exact C15_toplevel_no_functions. Qed.
-Print Assumptions C15_no_toplevel_functions.
+Theorem C15_toplevel_names : forall m x,
+    supported m = true -> forallb assign_ok m = true -> C15_find_at m [x].
+Proof. exact C15_toplevel. Qed.
+Print Assumptions C15_toplevel_names.
 
-Theorem C15_class_method_positional_arg : forall m x y z pre bs body d post pre' args body' d' r' post',
+Theorem C15_function_argument : forall m x y pre args body d r post,
+    supported m = true -> split_member x m = Some (pre, SFunc x args body d r, post) ->
+    C15_find_at m [x; y].
+Proof. exact C15_function_arg. Qed.
+Print Assumptions C15_function_argument.
+
+Theorem C15_class_method_argument : forall m x y z pre bs body d post pre' args body' d' r' post',
     supported m = true ->
-    split_member x m = Some (pre, SClass x bs body d, post) -> existsb is_func pre = false ->
-    split_member y body = Some (pre', SFunc y args body' d' r', post') -> existsb is_func pre' = false ->
-    has_arg_named z (ar_args args) = true ->
+    split_member x m = Some (pre, SClass x bs body d, post) ->
+    split_member y body = Some (pre', SFunc y args body' d' r', post') ->
     C15_find_at m [x; y; z].
 Proof. exact C15_class_method_arg. Qed.
-Print Assumptions C15_class_method_positional_arg.
+Print Assumptions C15_class_method_argument.
 
 Example C15_nonvacuous :
-  guard_C15 [w_C; w_helper] [L "C"; L "method"; L "a"] = true
+  guard_C15 [w_helper; w_C] [L "C"; L "method"; L "a"] = true
+  /\ guard_C15 [w_helper; w_C] [L "C"; L "method"; L "k"] = true
+  /\ guard_C15 [w_helper; w_C] [L "helper"; L "nope"] = true
+  /\ guard_C15 [w_C; w_helper] [L "C"; L "method"; L "a"] = true
   /\ guard_C15 [w_C; w_helper] [L "C"; L "attr"] = true
   /\ guard_C15 [w_C; w_helper] [L "C"] = true
   /\ guard_C15 [w_C; w_helper] [L "C"; L "nope"] = true
